@@ -134,6 +134,9 @@ func (s *scte35) parseTable(data []byte) error {
 			s.commandInfo = cmd
 		case SpliceNull:
 			s.commandInfo = &spliceNull{}
+			// no pts_time to adjust, but the adjustment is part of the
+			// section and is kept for re-encoding
+			s.pts = ptsAdjustment
 		default:
 			return gots.ErrSCTE35UnsupportedSpliceCommand
 		}
